@@ -231,7 +231,7 @@ def entries():
     add("TypiClust", "TypiClust", model=None, rows=False, cost=2)
     add("Badge", "Badge", model="clf_embed", selection="sampling", cost=2)
     add("ProbCover", "ProbCover", model=None, rows=False, cost=2)
-    add("ContrastiveAL", "ContrastiveAL", model="clf_embed", samplewise=False, cost=2)
+    add("ContrastiveAL", "ContrastiveAL", model="clf_embed", samplewise=True, arbitrary_idx=False, cost=2)
     for m in ("random", "diversity", "representativity"):
         add("RegressionTreeBasedAL(%s)" % m, "RegressionTreeBasedAL", {"method": m}, model="reg", cost=2)
     add("Falcun", "Falcun", model="clf_embed", selection="sampling", cost=2)
